@@ -1825,6 +1825,12 @@ package rtcp
 //@   ensures unmarshal: merr == nil ==> uerr == nil
 //@   ensures dest: verr == nil ==> seqEq(c.DestinationSSRC(), c[0].DestinationSSRC())
 
+//@ func lemmaDestSSRCStable(ps []Packet) (same bool, err error, err2 error)
+//@   lemma
+//@   trusted
+//@   bounded[C10] genPacketList
+//@   ensures stable: err == nil && err2 == nil && same
+
 //@ func lemmaReencodeSR(raw []byte) (p SenderReport, q SenderReport, err error, err2 error, err3 error)
 //@   lemma
 //@   requires frame: len(raw) <= 4*65536
